@@ -1,0 +1,5 @@
+//go:build !verif
+
+package route
+
+func verifYield(string) {}
